@@ -24,6 +24,12 @@ programmer chose.
   C16 a chained assignment of a constant `a = b = 0.0` -> `a = 0.0; b = 0.0`.
   C17 `x = []` + `for t in it: [if c:] x.append(e)` -> `x = [e for t in it if c]`.
   C18 in a loop body `if c: continue` followed by REST -> `if not c: REST` (guard clauses of loops are nested).
+  C21 (De Morgan) an if / conditional expression whose test is an and/or of negative tests only has its branches
+      swapped and tests the or/and of the positive ones.
+  C22 `return A and B or C` over boolean-valued tests -> nested `if`s with literal `return True` / `return False`.
+  C20 loops / list and dict comprehensions / any() / all() over a display of at most 8 constants are written out (_Unroll).
+  C19 the operands of an `and` / `or` are sorted where the order cannot matter: all pure, no None, boolean context or
+      boolean-valued operands, and no access path read by two operands (one operand may guard the other's evaluation).
   C5  statements without effect (a bare constant expression that is not a docstring; `pass` in a block that has
       other statements) are dropped.
 
@@ -55,6 +61,94 @@ def _has_meta(e):
     return any(isinstance(n, ast.Name) and (n.id.startswith("M_") or n.id == "REST_") for n in ast.walk(e))
 
 
+PURE_PREDICATES = {"isinstance", "len", "bool", "str", "int", "callable", "hasattr"}
+PURE_STR_METHODS = {"lower", "upper", "startswith", "endswith", "strip", "lstrip", "rstrip", "isdigit", "isalpha"}
+
+
+def _pure_operand(e):
+    for x in ast.walk(e):
+        if isinstance(x, (ast.Await, ast.Yield, ast.YieldFrom, ast.NamedExpr, ast.Subscript, ast.Lambda)):
+            return False
+        if isinstance(x, ast.Call):
+            ok = (isinstance(x.func, ast.Name) and x.func.id in PURE_PREDICATES) or (
+                isinstance(x.func, ast.Attribute) and x.func.attr in PURE_STR_METHODS)
+            if not ok or x.keywords:
+                return False
+    return True
+
+
+def _paths(e):
+    """the access paths an operand reads: `a`, `a.b`, `a.b.c` for `a.b.c` (a bare `self` is not counted)"""
+    out = set()
+    for x in ast.walk(e):
+        if isinstance(x, ast.Name) and x.id != "self":
+            out.add(x.id)
+        elif isinstance(x, ast.Attribute):
+            try:
+                out.add(ast.unparse(x))
+            except Exception:
+                pass
+    return out
+
+
+def _is_bool_valued(e):
+    if isinstance(e, ast.Compare):
+        return True
+    if isinstance(e, ast.UnaryOp) and isinstance(e.op, ast.Not):
+        return True
+    if isinstance(e, ast.BoolOp):
+        return all(_is_bool_valued(v) for v in e.values)
+    if isinstance(e, ast.Constant) and isinstance(e.value, bool):
+        return True
+    if isinstance(e, ast.Call) and isinstance(e.func, ast.Name) and e.func.id in ("isinstance", "bool", "callable", "hasattr"):
+        return True
+    if isinstance(e, ast.Call) and isinstance(e.func, ast.Attribute) and e.func.attr in ("startswith", "endswith", "isdigit", "isalpha"):
+        return True
+    return False
+
+
+def mark_bool_contexts(tree):
+    """marks (attribute `_boolctx`) every expression whose value is only tested for truth: the tests of if / while /
+    conditional expressions / assert / comprehension filters, the operand of `not`, and the operands of a marked and/or"""
+    def mark(e):
+        if e is None or getattr(e, "_boolctx", False):
+            return
+        e._boolctx = True
+        if isinstance(e, ast.BoolOp):
+            for v in e.values:
+                mark(v)
+    for n in ast.walk(tree):
+        if isinstance(n, (ast.If, ast.While, ast.IfExp, ast.Assert)):
+            mark(n.test)
+        elif isinstance(n, ast.comprehension):
+            for c in n.ifs:
+                mark(c)
+        elif isinstance(n, ast.UnaryOp) and isinstance(n.op, ast.Not):
+            mark(n.operand)
+    return tree
+
+
+def swappable(n):
+    """The operands of this and/or may be written in any order without a change of behaviour:
+    every operand is pure (no call beyond a few total predicates, no subscript); the value is only tested for truth or
+    every operand is boolean-valued (so `x or default` keeps its order); no operand mentions None; and no access path is
+    read by two operands (so `isinstance(x, T) and x.name == ..`, `x and x.y`, `op.kind == 'mem' and op.base ..` - one
+    operand guarding the other's evaluation - keep their order)."""
+    if not all(_pure_operand(v) for v in n.values):
+        return False
+    if any(isinstance(x, ast.Constant) and x.value is None for v in n.values for x in ast.walk(v)):
+        return False
+    if not (getattr(n, "_boolctx", False) or all(_is_bool_valued(v) for v in n.values)):
+        return False
+    seen = set()
+    for v in n.values:
+        p = _paths(v)
+        if p & seen:
+            return False
+        seen |= p
+    return True
+
+
 class _Canon(ast.NodeTransformer):
     def __init__(self, pattern=False):
         self.pattern = pattern
@@ -81,6 +175,13 @@ class _Canon(ast.NodeTransformer):
         return n
 
     # C2
+    # C19: operands of `and` / `or` are written in sorted order where the order cannot matter (see `swappable`)
+    def visit_BoolOp(self, n):
+        self.generic_visit(n)
+        if swappable(n) and not any(_has_meta(v) for v in n.values):
+            n.values = sorted(n.values, key=lambda v: ast.unparse(v))
+        return n
+
     def visit_UnaryOp(self, n):
         self.generic_visit(n)
         if isinstance(n.op, ast.Not) and isinstance(n.operand, ast.Compare) and len(n.operand.ops) == 1 \
@@ -99,6 +200,26 @@ class _Canon(ast.NodeTransformer):
         if isinstance(test, ast.Compare) and len(test.ops) == 1 and isinstance(test.ops[0], _NEGATIVE):
             test.ops = [_NEG[type(test.ops[0])]()]
             return test, True
+        # C21 (De Morgan): a conjunction / disjunction of negative tests only is the negation of the disjunction /
+        # conjunction of the positive ones
+        if isinstance(test, ast.BoolOp) and all(
+                (isinstance(v, ast.UnaryOp) and isinstance(v.op, ast.Not)) or
+                (isinstance(v, ast.Compare) and len(v.ops) == 1 and isinstance(v.ops[0], _NEGATIVE)) for v in test.values):
+            vals = []
+            for v in test.values:
+                if isinstance(v, ast.UnaryOp):
+                    vals.append(v.operand)
+                else:
+                    v.ops = [_NEG[type(v.ops[0])]()]
+                    vals.append(v)
+            new = ast.copy_location(ast.BoolOp(op=ast.Or() if isinstance(test.op, ast.And) else ast.And(), values=vals), test)
+            if getattr(test, "_boolctx", False):
+                new._boolctx = True
+                for v in vals:
+                    v._boolctx = True
+            if swappable(new):
+                new.values = sorted(new.values, key=lambda v: ast.unparse(v))
+            return new, True
         return test, False
 
     @staticmethod
@@ -172,6 +293,39 @@ class _Canon(ast.NodeTransformer):
             ast.copy_location(new.value, n)
             return new
         return n
+
+    # C22: `return <and/or/not of boolean-valued tests>` is written as the decision tree with literal returns
+    def visit_Return(self, n):
+        self.generic_visit(n)
+        v = n.value
+        if self.pattern or v is None or not isinstance(v, (ast.BoolOp, ast.UnaryOp)) or not _is_bool_valued(v) or _has_meta(v):
+            return n
+        if isinstance(v, ast.UnaryOp) and not isinstance(v.op, ast.Not):
+            return n
+
+        def lit(b):
+            return ast.copy_location(ast.Return(value=ast.copy_location(ast.Constant(value=b), n)), n)
+
+        def tree(e, yes, no):
+            """statements deciding e: run `yes` (a list ending in return) when e holds, else fall through to `no`"""
+            if isinstance(e, ast.BoolOp) and isinstance(e.op, ast.Or):
+                out = []
+                for x in e.values:
+                    out.extend(tree(x, yes, []))
+                return out + no
+            if isinstance(e, ast.BoolOp) and isinstance(e.op, ast.And) and any(isinstance(x, ast.BoolOp) for x in e.values):
+                inner = yes
+                for x in reversed(e.values):
+                    inner = tree(x, inner, [])
+                return inner + no
+            if isinstance(e, ast.UnaryOp) and isinstance(e.op, ast.Not) and isinstance(e.operand, ast.BoolOp):
+                # not (A or B): decided by the operand with the outcomes exchanged is not expressible without else;
+                # keep it as one test
+                pass
+            e._boolctx = True
+            return [ast.copy_location(ast.If(test=e, body=[_deep(s) for s in yes], orelse=[]), n)] + no
+
+        return tree(v, [lit(True)], [lit(False)])
 
     # C9: f(**{"k": v, ...}) with literal string keys is f(k=v, ...)
     def visit_Call(self, n):
@@ -420,8 +574,256 @@ class _Canon(ast.NodeTransformer):
         return self._block(n)
 
 
+# ---- C20: loops / comprehensions over a small display of constants are written out ------------------------------------
+_UNROLL_MAX_ITEMS = 8
+_UNROLL_MAX_STMTS = 80
+
+
+def _const_item(e):
+    if is_literal(e):
+        return True
+    return isinstance(e, ast.Tuple) and bool(e.elts) and all(is_literal(x) for x in e.elts)
+
+
+def _const_display(e):
+    return isinstance(e, (ast.Tuple, ast.List)) and 1 <= len(e.elts) <= _UNROLL_MAX_ITEMS and all(_const_item(x) for x in e.elts)
+
+
+def _binding(target, item):
+    """loop target -> {name: constant node} for one item, or None"""
+    if isinstance(target, ast.Name):
+        return {target.id: item}
+    if isinstance(target, (ast.Tuple, ast.List)) and isinstance(item, ast.Tuple) and len(target.elts) == len(item.elts) \
+            and all(isinstance(t, ast.Name) for t in target.elts):
+        return {t.id: v for t, v in zip(target.elts, item.elts)}
+    return None
+
+
+class _SubstConst(ast.NodeTransformer):
+    def __init__(self, mapping):
+        self.mapping = mapping
+
+    def visit_Name(self, n):
+        if isinstance(n.ctx, ast.Load) and n.id in self.mapping:
+            return ast.copy_location(_deep(self.mapping[n.id]), n)
+        return n
+
+    def visit_Compare(self, n):
+        self.generic_visit(n)
+        # constant folding of what the substitution produced: 'a' == 'a', 'a' in ('a', 'b')
+        if len(n.ops) == 1 and isinstance(n.left, ast.Constant):
+            r, op = n.comparators[0], n.ops[0]
+            if isinstance(r, ast.Constant) and isinstance(op, (ast.Eq, ast.NotEq)) and type(r.value) is type(n.left.value):
+                v = (n.left.value == r.value) == isinstance(op, ast.Eq)
+                return ast.copy_location(ast.Constant(value=v), n)
+            if isinstance(r, (ast.Tuple, ast.List, ast.Set)) and all(isinstance(x, ast.Constant) for x in r.elts) \
+                    and isinstance(op, (ast.In, ast.NotIn)):
+                v = (n.left.value in [x.value for x in r.elts]) == isinstance(op, ast.In)
+                return ast.copy_location(ast.Constant(value=v), n)
+        return n
+
+    def visit_If(self, n):
+        self.generic_visit(n)
+        if isinstance(n.test, ast.Constant) and isinstance(n.test.value, bool):
+            return (n.body if n.test.value else n.orelse) or [ast.copy_location(ast.Pass(), n)]
+        return n
+
+    def visit_IfExp(self, n):
+        self.generic_visit(n)
+        if isinstance(n.test, ast.Constant) and isinstance(n.test.value, bool):
+            return n.body if n.test.value else n.orelse
+        return n
+
+
+def _deep(n):
+    if isinstance(n, list):
+        return [_deep(x) for x in n]
+    if not isinstance(n, ast.AST):
+        return n
+    new = type(n)()
+    for f in n._fields:
+        if hasattr(n, f):
+            setattr(new, f, _deep(getattr(n, f)))
+    for a in n._attributes:
+        if hasattr(n, a):
+            setattr(new, a, getattr(n, a))
+    if getattr(n, "_boolctx", False):
+        new._boolctx = True
+    return new
+
+
+def _names_in(nodes, ctx=None, skip_nested=False):
+    out = set()
+    stack = list(nodes)
+    while stack:
+        x = stack.pop()
+        if isinstance(x, ast.Name) and (ctx is None or isinstance(x.ctx, ctx)):
+            out.add(x.id)
+        stack.extend(ast.iter_child_nodes(x))
+    return out
+
+
+def _own_level(stmts, types):
+    """nodes of the given types in stmts that belong to this loop level (not to a nested loop / function)"""
+    stack = list(stmts)
+    while stack:
+        x = stack.pop()
+        if isinstance(x, types):
+            return True
+        if isinstance(x, (ast.For, ast.While, ast.AsyncFor)):
+            stack.extend(x.orelse)
+            continue
+        if isinstance(x, (ast.FunctionDef, ast.AsyncFunctionDef, ast.Lambda, ast.ClassDef)):
+            continue
+        stack.extend(ast.iter_child_nodes(x))
+    return False
+
+
+def _captured(stmts, names):
+    for s in stmts:
+        for x in ast.walk(s):
+            if isinstance(x, (ast.Lambda, ast.FunctionDef, ast.AsyncFunctionDef)):
+                if _names_in([x]) & names:
+                    return True
+    return False
+
+
+class _Unroll(ast.NodeTransformer):
+    """C20. A `for` over a display of at most 8 constants (or equal-length tuples of constants for a tuple target) whose
+    body has no break / continue of its own and no else, whose loop variables are not assigned in the body, not captured by
+    a nested function and not read after the loop, is written out with the constants substituted (and the comparisons
+    between constants this produces folded). `x = [e for k in CONSTS if c]` becomes `x = []` followed by one guarded
+    append per constant; a dict comprehension over constants without filter becomes a display; any()/all() over such a
+    generator of boolean-valued tests becomes or/and."""
+
+    def __init__(self):
+        self.changed = False
+        self.fn_stack = []
+
+    def visit_FunctionDef(self, n):
+        self.fn_stack.append(n)
+        self.generic_visit(n)
+        self.fn_stack.pop()
+        return n
+
+    visit_AsyncFunctionDef = visit_FunctionDef
+
+    def _read_outside(self, loop, names):
+        if not self.fn_stack:
+            return True
+        fn = self.fn_stack[-1]
+        inside = {id(x) for x in ast.walk(loop)}
+        for x in ast.walk(fn):
+            if isinstance(x, ast.Name) and x.id in names and id(x) not in inside:
+                return True
+        return False
+
+    def _unrolled(self, target, items, body):
+        out = []
+        for it in items:
+            b = _binding(target, it)
+            if b is None:
+                return None
+            sub = _SubstConst(b)
+            for st in body:
+                r = sub.visit(_deep(st))
+                out.extend(r if isinstance(r, list) else [r])
+        return out
+
+    def visit_For(self, n):
+        self.generic_visit(n)
+        if n.orelse or not _const_display(n.iter):
+            return n
+        names = _names_in([n.target])
+        if not names or _names_in(n.body, ast.Store) & names or _own_level(n.body, (ast.Break, ast.Continue)) \
+                or _captured(n.body, names) or self._read_outside(n, names):
+            return n
+        if len(n.iter.elts) * sum(1 for s in n.body for x in ast.walk(s) if isinstance(x, ast.stmt)) > _UNROLL_MAX_STMTS:
+            return n
+        out = self._unrolled(n.target, n.iter.elts, n.body)
+        if out is None:
+            return n
+        self.changed = True
+        return [ast.copy_location(s, n) if not hasattr(s, "lineno") else s for s in out] or [ast.copy_location(ast.Pass(), n)]
+
+    def visit_Assign(self, n):
+        self.generic_visit(n)
+        v = n.value
+        if len(n.targets) == 1 and isinstance(n.targets[0], ast.Name) and isinstance(v, ast.ListComp) and len(v.generators) == 1:
+            g = v.generators[0]
+            names = _names_in([g.target])
+            if not g.is_async and _const_display(g.iter) and names and not _captured([ast.Expr(value=v.elt)] + [ast.Expr(value=c) for c in g.ifs], names) \
+                    and n.targets[0].id not in _names_in([v]):
+                acc = n.targets[0].id
+                call = ast.Expr(value=ast.Call(func=ast.Attribute(value=ast.Name(id=acc, ctx=ast.Load()), attr="append", ctx=ast.Load()),
+                                               args=[v.elt], keywords=[]))
+                st = call
+                if g.ifs:
+                    test = g.ifs[0] if len(g.ifs) == 1 else ast.BoolOp(op=ast.And(), values=list(g.ifs))
+                    test._boolctx = True
+                    st = ast.If(test=test, body=[call], orelse=[])
+                for x in ast.walk(st):
+                    ast.copy_location(x, n)
+                out = self._unrolled(g.target, g.iter.elts, [st])
+                if out is not None:
+                    self.changed = True
+                    first = ast.copy_location(ast.Assign(targets=n.targets, value=ast.copy_location(ast.List(elts=[], ctx=ast.Load()), n)), n)
+                    return [first] + out
+        return n
+
+    def visit_DictComp(self, n):
+        self.generic_visit(n)
+        if len(n.generators) == 1:
+            g = n.generators[0]
+            if not g.is_async and not g.ifs and _const_display(g.iter) and not _captured([ast.Expr(value=n.key), ast.Expr(value=n.value)], _names_in([g.target])):
+                keys, vals = [], []
+                for it in g.iter.elts:
+                    b = _binding(g.target, it)
+                    if b is None:
+                        return n
+                    sub = _SubstConst(b)
+                    keys.append(sub.visit(_deep(n.key)))
+                    vals.append(sub.visit(_deep(n.value)))
+                if len({ast.unparse(k) for k in keys}) == len(keys):
+                    self.changed = True
+                    return ast.copy_location(ast.Dict(keys=keys, values=vals), n)
+        return n
+
+    def visit_Call(self, n):
+        self.generic_visit(n)
+        if isinstance(n.func, ast.Name) and n.func.id in ("any", "all") and len(n.args) == 1 and not n.keywords \
+                and isinstance(n.args[0], (ast.GeneratorExp, ast.ListComp)) and len(n.args[0].generators) == 1:
+            ge = n.args[0]
+            g = ge.generators[0]
+            if not g.is_async and not g.ifs and _const_display(g.iter) and len(g.iter.elts) >= 2 and _is_bool_valued(ge.elt) \
+                    and not _captured([ast.Expr(value=ge.elt)], _names_in([g.target])):
+                vals = []
+                for it in g.iter.elts:
+                    b = _binding(g.target, it)
+                    if b is None:
+                        return n
+                    vals.append(_SubstConst(b).visit(_deep(ge.elt)))
+                self.changed = True
+                new = ast.BoolOp(op=ast.Or() if n.func.id == "any" else ast.And(), values=vals)
+                if getattr(n, "_boolctx", False):
+                    new._boolctx = True
+                return ast.copy_location(new, n)
+        return n
+
+
 def canonicalise(tree, pattern=False):
-    return _Canon(pattern).visit(tree)
+    mark_bool_contexts(tree)
+    tree = _Canon(pattern).visit(tree)
+    if not pattern:
+        for _ in range(3):
+            u = _Unroll()
+            tree = u.visit(tree)
+            if not u.changed:
+                break
+            ast.fix_missing_locations(tree)
+            mark_bool_contexts(tree)
+            tree = _Canon(pattern).visit(tree)
+    return tree
 
 
 def canon_text(src):
